@@ -3219,6 +3219,15 @@ def where(condition: ArrayOrScalar,
     expr3 = utils.update_bindings_and_get_broadcasted_expr(y, "_in2", bindings,
                                                            result_shape)
 
+    # Cast array operands to the result dtype, as binary operators do: code
+    # generation targets need not follow numpy's promotion rules (loopy
+    # evaluates 'If(c, float32, int32)' and all its consumers in float32).
+    if dtype != _BOOL_DTYPE:
+        if isinstance(x, Array) and x.dtype != dtype:
+            expr2 = TypeCast(dtype, expr2)
+        if isinstance(y, Array) and y.dtype != dtype:
+            expr3 = TypeCast(dtype, expr3)
+
     return IndexLambda(
             expr=prim.If(expr1, expr2, expr3),
             shape=result_shape,
